@@ -74,6 +74,10 @@ class Effects:
                     # the receiver is a class object: shared by every thread
                     return ("class", f"<instance of {fn.cls.qualname}>" if self.m.is_metaclass(fn.cls) else fn.cls.qualname)
                 inst = self.module_level_instances(fn.cls)
+                if inst and "threading.local" in self.m.external_bases(fn.cls) and self.r is not None and self.r.local_subclass_is_confined(fn.cls) is None:
+                    # the class is a threading.local subclass whose attributes are all per-thread: `self.x = ..` in its methods is a
+                    # store on the thread's own copy
+                    return ("tl", f"{inst[0]}")
                 if inst and fn.name not in ("__init__", "__new__", "__init_subclass__"):
                     # the class has an instance bound at module level: what its methods store on `self` is, for that
                     # instance, state shared by every thread
